@@ -106,6 +106,21 @@ LEVEL_TEXT = (
     "Selector.check per resource; the priority of core v1 and the ambiguity rule of docs/resources.rst are applied only "
     "when choosing what to WATCH (Selector.select): a handler declared for 'pods' also runs for pods.metrics.k8s.io objects "
     "as soon as that resource is watched for a category / EVERYTHING / callable selector of another handler. "
+    "THE RESOURCE CRITERION OVER A HISTORY OF DISCOVERIES (seed C15g closed as a class): the served resources are re-discovered "
+    "at runtime (observation.revise_resources); the same endpoint (group/version/plural = Resource.__eq__) comes back with other "
+    "categories / short names / kind / `preferred` flag. Lean: `Selector.route` (one selector instance over the resources of "
+    "consecutive events), rediscovery_routes_by_current / rediscovery_forgets_past (FULL: the k-th event is routed by `check` on the "
+    "resource as it is at the k-th event, whatever was discovered before), rediscovery_doc_partial / rediscovery_doc_named (= the "
+    "documented criterion at every step; the events.k8s.io guard only for EVERYTHING/callables); the memoised variant "
+    "`Selector.routeMemo` (outcomes remembered per endpoint) is the code exactly on histories where no endpoint comes back with "
+    "another outcome (memoised_route_eq_of_stable: why kopf's own tests pass it) and is refuted by memoised_route_witness "
+    "(category left / joined, preferred version moved). Oracle (from docs/resources.rst, per step, on the real "
+    "process_resource_event with one registry and one ResourceMemories over the whole history): on.event handlers invoked = those "
+    "whose selector selects the resource as it is NOW, on every event; on.create handlers for a new object likewise (through the "
+    "finalizer cycle when a mandatory on.delete handler selects it now); the finalizer follows the on.delete handlers that select it "
+    "now; no request at all for an object of a resource no state-changing handler selects now; and the resource-level questions "
+    "the reactor puts to the same instances (Selector.check, Selector.select over the cluster as it is now, has_handlers, "
+    "get_resource_handlers). "
     "ORACLE ONLY (closed loop on the real process_resource_event, no model): 'one function registered twice under the "
     "same id is invoked once' PER CAUSE for stacked decorators (@on.update + @on.delete, @on.create + @on.resume, ... on "
     "one function, one id): exactly one call for every cause the function is registered for, none for the others, never two "
@@ -141,7 +156,9 @@ TIE = ("T (AST -> Lean for match/prematch/_matches_*/all four registry loops inc
        "SUB-REGISTRIES: parents of every kind are run by kopf's execution.execute_handlers_once in "
        "subhandling_context, declare sub-handlers through @kopf.subhandler / kopf.register / kopf.execute(fns=[..]|{..}), "
        "and the real sub-registry (handler fields, get_handlers result, invoked functions) is compared with the "
-       "declarations, the oracle and the model; the same inside whole process_resource_event cycles; _deduplicated's loop "
+       "declarations, the oracle and the model; the same inside whole process_resource_event cycles; RE-DISCOVERY HISTORIES: the answers of every handler's "
+       "real Selector instance to the consecutive questions of a history (the same endpoint with changing attributes) vs. the "
+       "model's `Selector.route` (driver op C15.route; callables per question); _deduplicated's loop "
        "and Selector.__post_init__ are tied by D only")
 STRENGTH = "partial"   # see LEVEL_TEXT: several clauses hold only under named guards (= open findings) or rest on the tie
 THEOREMS = [("Kopf.Props.C15", "Kopf.C15." + n) for n in (
@@ -155,6 +172,8 @@ THEOREMS = [("Kopf.Props.C15", "Kopf.C15." + n) for n in (
     "gate_iff", "selected_on_deletion_iff", "subhandler_gate", "subhandler_selected_iff", "subhandlers_selected_iff",
     "subhandler_deletion_regression",
     "selector_check_iff_partial", "resource_criterion_doc_partial", "selector_gap_events_k8s_witness", "selector_served_gap_witness",
+    "rediscovery_routes_by_current", "rediscovery_forgets_past", "rediscovery_doc_partial", "rediscovery_doc_named",
+    "memoised_route_eq_of_stable", "memoised_route_witness",
     "stealth_exact_at", "stealth_exact_blind", "stealth_exact", "blind_never_purges", "stealth_records_ignored", "purgeIds_iff",
     "stealth_removals_only_partial", "stealth_finalizer_only_partial", "stealth_total_partial",
     "stealth_partial", "carried_fulfilled_sends_nothing", "deadline_writes_nothing", "stealth_carried_witness",
@@ -213,7 +232,16 @@ RULE = ("handler declaration = labels x annotations criterion in {none, 'x', 'y'
         "closed-loop scenarios (an on.delete handler declaring two sub-handlers on a marked object that carries the finalizer: "
         "both invoked, then the finalizer released in the same cycle; one of them asking for a retry: not released; "
         "on.resume(deleted=True) on a marked object; on.create with labels=/when= sub-handlers; on.update/on.field parents) "
-        "and random cycles built so that a parent with random sub-handlers runs; a "
+        "and random cycles built so that a parent with random sub-handlers runs; "
+        "re-discovery histories: one registry of on.event / on.create / mandatory on.delete handlers declared through 29 selector "
+        "notations that read discovery attributes (category=, shortcut=, kind=, singular=, bare names matched by short name / kind / "
+        "singular / plural, version-less = preferred only, group + name, EVERYTHING with and without a version, callables reading "
+        "categories / preferred, and explicit group/version/plural as the control) x 2-5 consecutive events for NEW objects of 1-3 "
+        "endpoints whose resource is re-discovered between the events with a category / short name added or removed, kind+singular "
+        "renamed, the preferred flag flipped (or unchanged, or rewritten wholesale), the resource-level questions asked before "
+        "the event in 30%; systematic part: every notation as on.event AND on.create handler over every ordered pair (base discovery, "
+        "one attribute different) + in-out-in, and per notation that tells two discoveries apart a mandatory on.delete / an "
+        "on.create handler next to an explicit on.event spy in both directions (the stealth clause); a "
         "case is distinct by (criterion kinds, documented per-part verdicts, real match/prematch) and non-trivial when the "
         "handler has at least one criterion")
 TRUSTED = ["pyextract atom vocabularies for registries.match/prematch/_matches_*/registry loops, references.Selector.check and the "
@@ -278,6 +306,12 @@ ASSUMPTIONS = ["values are JSON (strings, integers, booleans, null, lists, objec
                "reads the parsed fields, the tie compares both with the real check(); kubectl's `name.version[.group]` notations are "
                "generated (`name.v1` without a group is judged only where 'the core group' and 'any group' agree: the docs give "
                "one example, 'pods.v1'); the ambiguity resolution of Selector.select (which resources are SERVED) is C19's",
+               "re-discovery histories: the resource handed to process_resource_event IS the discovery (kopf passes the Resource object "
+               "of the watcher that observation.revise_resources (re)started; the revision itself -- which watchers are stopped and "
+               "started for which resource -- is C19's); every step's object is NEW (event ADDED, no annotations, no finalizer; fed back "
+               "once as MODIFIED with the finalizer the cycle asked for), so the cause is a creation and on.update/resume/timers/"
+               "daemons/index handlers are not in these histories; all endpoints are in one API group (no ambiguity rule); a history has "
+               "2-5 steps, 1-5 handlers (the systematic registry: 58)",
                "the cycle oracle reads the object itself: labels/annotations/fields of the event's body, the last-handled state "
                "as the harness stored it; the values kopf's essence gives the field criteria must be those (handlers' fields "
                "outside spec are part of the essence: get_extra_fields); the finalizer is settings.persistence.finalizer as "
@@ -2483,6 +2517,7 @@ SEL_CALLABLES: dict[str, Callable[[Any], bool]] = {
     "true": lambda r: True, "false": lambda r: False,
     "kex_preferred": lambda r: r.plural == "kopfexamples" and r.preferred,
     "core": lambda r: r.group == "",
+    "in_widgets": lambda r: "widgets" in r.categories,
 }
 EVERYTHING = "*EVERYTHING*"
 K8S_VERSION = re.compile(r"v\d+(?:(?:alpha|beta)\d+)?")      # "v1", "v1beta1", "v2alpha3": Kubernetes' API version names
@@ -2691,6 +2726,271 @@ def run_served_case(env: Env, rec: Rec, case: dict) -> None:
 
 def served_cases() -> list[dict]:
     return [{"decls": SERVED_DECLS, "cluster": c} for c in SERVED_CLUSTERS]
+
+
+# =============================================================================================
+# (D) re-discovery histories: ONE registry (its Selector instances live as long as the operator) asked about the SAME
+# API endpoints again and again while their CRDs are edited -- observation.revise_resources re-discovers the served
+# resources at runtime ("if a CRD's categories were modified"): the endpoint (group/version/plural) comes back with other
+# categories, short names, kind/singular, `preferred` flag. "For every event the set of handlers invoked is exactly the
+# set whose declared criteria all hold": the resource selector holds or not for the resource AS IT IS at that event;
+# "objects matched by no handler are left untouched". Everything through the real process_resource_event (only
+# patch_and_check is a recorder), plus the resource-level questions the reactor asks the same instances
+# (Selector.check / Selector.select / has_handlers / get_resource_handlers).
+# =============================================================================================
+REDISC_ENDPOINTS = [("kopf.dev", "v1", "kopfexamples"), ("kopf.dev", "v2", "kopfexamples"), ("kopf.dev", "v1", "kopfsamples")]
+REDISC_CATS = ["all", "kopf", "widgets"]
+REDISC_SHORTS = ["kex", "ke"]
+REDISC_KINDS = [("KopfExample", "kopfexample"), ("KopfSample", "kopfsample")]
+REDISC_DECLS: list = (
+    [{"args": [], "kw": {"category": c}} for c in ("widgets", "kopf", "all")]
+    + [{"args": [], "kw": kw} for kw in ({"shortcut": "kex"}, {"kind": "KopfExample"}, {"singular": "kopfexample"}, {"plural": "kopfexamples"},
+                                         {"group": "kopf.dev", "category": "widgets"}, {"version": "v1", "category": "all"},
+                                         {"version": "v1", "shortcut": "ke"}, {"group": "kopf.dev", "version": "v2", "kind": "KopfSample"})]
+    + [{"args": a, "kw": {}} for a in (["kopfexamples"], ["kex"], ["KopfExample"], ["kopfexample"], ["kopfsample"], ["kopf.dev", "kopfexamples"],
+                                       ["kopfexamples.kopf.dev"], ["kopf.dev", "kex"], ["kopf.dev", "v1", "kopfexamples"],
+                                       ["kopf.dev/v2", "kopfexamples"], ["kopf.dev", "v1", "kex"], ["kopf.dev/v1", "KopfSample"],
+                                       [EVERYTHING], ["kopf.dev", EVERYTHING], ["kopf.dev", "v1", EVERYTHING],
+                                       [{"fn": "kex_preferred"}], [{"fn": "in_widgets"}])]
+    + [{"args": [{"fn": "in_widgets"}], "kw": {"group": "kopf.dev"}}])
+REDISC_KINDS_H = ("event", "create", "delete")          # watching / state-changing / state-changing with the finalizer
+SIG_REDISC_EXTRA = {"site": "resource selector after re-discovery", "shape": "a handler is invoked for a resource that its selector does not select as the resource is now"}
+SIG_REDISC_MISSING = {"site": "resource selector after re-discovery", "shape": "a handler whose selector selects the resource as it is now is not invoked"}
+SIG_REDISC_TOUCHED = {"site": "resource selector after re-discovery", "shape": "an object of a resource that no state-changing handler selects (as it is now) is written to"}
+SIG_REDISC_FIN = {"site": "resource selector after re-discovery", "shape": "the finalizer does not follow the deletion handlers whose selector holds now"}
+SIG_REDISC_ASK = {"site": "resource selector after re-discovery", "shape": "a resource-level question is answered for the resource as it was"}
+
+
+def redisc_resource(ep: int = 0, *, cats: Any = ("all", "widgets"), shorts: Any = ("kex",), kind: int = 0, preferred: bool = True) -> dict:
+    g, v, p = REDISC_ENDPOINTS[ep]
+    return dict(group=g, version=v, plural=p, kind=REDISC_KINDS[kind][0], singular=REDISC_KINDS[kind][1],
+                shortcuts=sorted(shorts), categories=sorted(cats), preferred=preferred)
+
+
+def redisc_variants() -> list[dict]:
+    """the base discovery of the endpoint and the same endpoint with ONE attribute different"""
+    return [redisc_resource(), redisc_resource(cats=()), redisc_resource(cats=("all",)), redisc_resource(shorts=()), redisc_resource(shorts=("ke",)),
+            redisc_resource(kind=1), redisc_resource(preferred=False), redisc_resource(cats=("kopf",), shorts=("ke", "kex"), preferred=False)]
+
+
+def rediscover_scenarios() -> list[dict]:
+    """systematic part: (a) every declaration as an on.event AND an on.create handler of one registry, over every ordered pair
+    of discoveries of one endpoint (and in-out-in); (b) per declaration that tells two discoveries apart: the declaration on a
+    mandatory on.delete handler next to an explicit on.event spy -- the stealth clause in both directions"""
+    vs = redisc_variants()
+    out: list[dict] = []
+    both = [[k, d] for d in REDISC_DECLS for k in ("event", "create")]
+    for i, a in enumerate(vs):
+        for j, b in enumerate(vs):
+            if i != j and (i == 0 or j == 0):
+                out.append({"handlers": both, "steps": [{"r": a}, {"r": b, "ask_first": (i + j) % 2 == 1}]})
+    out.append({"handlers": both, "steps": [{"r": vs[0]}, {"r": vs[1]}, {"r": vs[0]}]})
+    out.append({"handlers": both, "steps": [{"r": vs[1], "ask_first": True}, {"r": vs[0]}, {"r": vs[6]}, {"r": redisc_resource(1)}]})
+    spy = ["event", {"args": ["kopf.dev", "v1", "kopfexamples"], "kw": {}}]
+    for d in REDISC_DECLS:
+        for b in vs[1:]:
+            if doc_selector(d, vs[0]) != doc_selector(d, b):
+                out.append({"handlers": [["delete", d], spy], "steps": [{"r": vs[0]}, {"r": b}]})
+                out.append({"handlers": [["create", d], spy], "steps": [{"r": b}, {"r": vs[0]}]})
+                break
+    return out
+
+
+def random_rediscover_case(rng: random.Random) -> dict:
+    hs = [[rng.choice(REDISC_KINDS_H), rng.choice(REDISC_DECLS)] for _ in range(rng.randint(1, 4))]
+    if rng.random() < 0.3:
+        hs.append(["event", {"args": list(REDISC_ENDPOINTS[0]), "kw": {}}])
+    eps = rng.sample(range(len(REDISC_ENDPOINTS)), rng.choice([1, 1, 2, 3]))
+    now: dict[int, dict] = {}
+    steps: list[dict] = []
+    for _ in range(rng.randint(2, 5)):
+        ep = rng.choice(eps)
+        if ep not in now or rng.random() < 0.15:        # first discovery / a thorough rewrite of the CRD
+            r = redisc_resource(ep, cats=[c for c in REDISC_CATS if rng.random() < 0.5], shorts=[x for x in REDISC_SHORTS if rng.random() < 0.5],
+                                kind=rng.randrange(2), preferred=rng.random() < 0.7)
+        else:                                           # the CRD is edited: one attribute changes (or none: a plain next event)
+            r = json.loads(json.dumps(now[ep]))
+            what = rng.choice(["cats", "cats", "shorts", "kind", "preferred", "preferred", "none"])
+            if what == "cats":
+                c = rng.choice(REDISC_CATS)
+                r["categories"] = sorted(set(r["categories"]) ^ {c})
+            elif what == "shorts":
+                c = rng.choice(REDISC_SHORTS)
+                r["shortcuts"] = sorted(set(r["shortcuts"]) ^ {c})
+            elif what == "kind":
+                k_ = 1 - [k for k, _ in REDISC_KINDS].index(r["kind"])
+                r["kind"], r["singular"] = REDISC_KINDS[k_]
+            elif what == "preferred":
+                r["preferred"] = not r["preferred"]
+        now[ep] = r
+        steps.append({"r": r, "ask_first": rng.random() < 0.3})
+    return {"handlers": hs, "steps": steps}
+
+
+async def run_rediscover_case(env: Env, rec: Rec, case: dict, reqs: list, pending: list) -> None:
+    import asyncio
+    R, P, A = env.references, env.processing, env.application
+    settings = env.configuration.OperatorSettings()
+    settings.posting.enabled = False
+    fin = settings.persistence.finalizer
+    registry = env.registries.OperatorRegistry()
+    hs: list[tuple[str, dict, Any]] = []
+    for n_, (kind, decl) in enumerate(case["handlers"]):
+        args = [R.EVERYTHING if a == EVERYTHING else (SEL_CALLABLES[a["fn"]] if isinstance(a, dict) else a) for a in decl["args"]]
+        reg = registry._watching if kind == "event" else registry._changing
+        getattr(env.kopf.on, kind)(*args, **decl["kw"], registry=registry, id=f"h{n_}", param=n_)(env.fns[n_ % len(env.fns)])
+        hs.append((kind, decl, reg._handlers[-1]))
+    memories = env.inventory.ResourceMemories()
+    memobase = env.ephemera.Memo()
+    indexers = env.indexing.OperatorIndexers()
+    sent: list[dict] = []
+    rows = ["" for _ in hs]
+    cluster: dict[tuple, dict] = {}
+
+    async def pac(**kw: Any) -> Any:
+        d = json.loads(json.dumps(dict(kw["patch"]), default=repr))
+        if d or kw["patch"].fns:
+            sent.append({"patch": d, "fns": list(kw["patch"].fns)})      # (finalizers travel as JSON-patch transformations)
+            return str(1000 + len(sent)), None
+        return None, None
+
+    def applied(doc: dict, w: dict) -> dict:
+        doc = merge_patch(json.loads(json.dumps(doc)), w["patch"])
+        for f_ in w["fns"]:
+            f_(doc)
+        return doc
+
+    def shown(ws: list) -> list:
+        return [{"patch": w["patch"], "fns": [getattr(f_, "func", f_).__name__ for f_ in w["fns"]]} for w in ws]
+
+    def fail(k: int, what: str, sig: dict, impl: Any) -> None:
+        r = case["steps"][k]["r"]
+        rec.oracle_fail(f"re-discovery history, step {k} ({r['group']}/{r['version']}/{r['plural']} categories={r['categories']} shortcuts={r['shortcuts']} "
+                        f"kind={r['kind']} preferred={r['preferred']}): {what}", {"kind": "rediscover", "case": case, "step": k, "impl": impl}, sig)
+
+    def ask(k: int, r: dict, rr: Any, E: list[int]) -> None:
+        """the resource-level questions of the reactor, to the same instances"""
+        for n_, (kind, decl, real) in enumerate(hs):
+            got = bool(real.selector.check(rr))
+            rows[n_] += "1" if got else "0"
+            if got != (n_ in E):
+                fail(k, f"Selector{tuple(decl['args'])}{decl['kw']}.check() = {got}, documented for the resource as it is now: {n_ in E}", SIG_REDISC_ASK, got)
+        for name, reg, kinds in (("_watching", registry._watching, ("event",)), ("_changing", registry._changing, ("create", "delete"))):
+            want = [f"h{n_}" for n_ in E if hs[n_][0] in kinds]
+            got_has = bool(reg.has_handlers(resource=rr))
+            if got_has != bool(want):
+                fail(k, f"registry.{name}.has_handlers() = {got_has}; handlers whose selector holds now: {want}", SIG_REDISC_ASK, got_has)
+            if name == "_changing":
+                got_ids = sorted(str(h.id) for h in reg.get_resource_handlers(resource=rr))
+                if got_ids != sorted(want):
+                    fail(k, f"registry._changing.get_resource_handlers() = {got_ids}; handlers whose selector holds now: {sorted(want)}", SIG_REDISC_ASK, got_ids)
+        now_docs = list(cluster.values())
+        now_real = [R.Resource(group=x["group"], version=x["version"], plural=x["plural"], kind=x["kind"], singular=x["singular"],
+                               shortcuts=frozenset(x["shortcuts"]), categories=frozenset(x["categories"]), preferred=x["preferred"],
+                               namespaced=True) for x in now_docs]
+        for n_, (kind, decl, real) in enumerate(hs):          # what is served for the specification (one API group: no ambiguity)
+            got_sel = sorted((x.group, x.version, x.plural) for x in real.selector.select(now_real))
+            want_sel = sorted((x["group"], x["version"], x["plural"]) for x in doc_select(decl, now_docs))
+            if got_sel != want_sel:
+                fail(k, f"Selector{tuple(decl['args'])}{decl['kw']}.select(the cluster's resources as they are now) = {got_sel}, documented: {want_sel}",
+                     SIG_REDISC_ASK, got_sel)
+
+    orig = A.patch_and_check
+    A.patch_and_check = pac
+    try:
+        for k, step in enumerate(case["steps"]):
+            r = step["r"]
+            cluster[(r["group"], r["version"], r["plural"])] = r
+            rr = R.Resource(group=r["group"], version=r["version"], plural=r["plural"], kind=r["kind"], singular=r["singular"],
+                            shortcuts=frozenset(r["shortcuts"]), categories=frozenset(r["categories"]), preferred=r["preferred"], namespaced=True)
+            E = [n_ for n_, (kind, decl, _) in enumerate(hs) if doc_selector(decl, r)]        # the oracle: docs/resources.rst, now
+            E_kind = {kd: sorted(n_ for n_ in E if hs[n_][0] == kd) for kd in REDISC_KINDS_H}
+            changing_now = bool(E_kind["create"] or E_kind["delete"])
+            if step.get("ask_first"):
+                ask(k, r, rr, E)
+            body: dict = {"apiVersion": f"{r['group']}/{r['version']}", "kind": r["kind"],
+                          "metadata": {"name": f"o{k}", "namespace": "ns", "uid": f"u{k}", "resourceVersion": "1",
+                                       "creationTimestamp": "2020-01-01T00:00:00Z"}, "spec": {"f": "x"}}
+            invoked_create: list[int] = []
+            n_sent = len(sent)
+            for feed, etype in enumerate(("ADDED", "MODIFIED")):
+                env.calls.clear()
+                before = len(sent)
+                try:
+                    await P.process_resource_event(
+                        lifecycle=env.lifecycles.all_at_once, indexers=indexers, registry=registry, settings=settings, memories=memories,
+                        memobase=memobase, resource=rr, raw_event={"type": etype, "object": json.loads(json.dumps(body))},
+                        event_queue=asyncio.Queue(), no_throttling=True)
+                except Exception as e:  # noqa: BLE001
+                    fail(k, f"process_resource_event raised {type(e).__name__}: {e}", {"site": "processing.process_resource_event", "shape": f"raises {type(e).__name__}"}, None)
+                    return
+                called = [prm for _, prm in env.calls]
+                ev = sorted(n_ for n_ in called if hs[n_][0] == "event")
+                invoked_create += [n_ for n_ in called if hs[n_][0] != "event"]
+                rec.evaluations += 1
+                rec.count("rediscover: on.event handlers per event", f"{len(ev)} invoked / {len(E_kind['event'])} select the resource now")
+                if ev != E_kind["event"]:
+                    extra = [n_ for n_ in ev if n_ not in E_kind["event"]]
+                    fail(k, f"on.event handlers invoked for the {etype} event: {['h%d' % x for x in ev]}; their selectors "
+                            f"{[hs[x][1] for x in extra] if extra else [hs[x][1] for x in E_kind['event'] if x not in ev]} "
+                            f"{'do not select' if extra else 'select'} the resource as it is now (expected {['h%d' % x for x in E_kind['event']]})",
+                         SIG_REDISC_EXTRA if extra else SIG_REDISC_MISSING, ev)
+                new = sent[before:]
+                after = body
+                for w in new:
+                    after = applied(after, w)
+                adds_fin = fin in (after.get("metadata", {}).get("finalizers") or [])
+                if feed == 0 and adds_fin != bool(E_kind["delete"]):
+                    fail(k, f"the finalizer is {'added' if adds_fin else 'not added'}; mandatory deletion handlers whose selector holds now: "
+                            f"{['h%d' % x for x in E_kind['delete']]}", SIG_REDISC_FIN if changing_now or not adds_fin else SIG_REDISC_TOUCHED, shown(new))
+                if not (feed == 0 and adds_fin):
+                    break
+                body = after                                # the closed loop, once: the object comes back with the finalizer
+                body["metadata"]["resourceVersion"] = "2"
+            got_c = sorted(invoked_create)
+            rec.count("rediscover: state-changing handlers per new object", f"{len(got_c)} invoked / {len(E_kind['create'])} on.create select the resource now"
+                      + (f" (+{len(E_kind['delete'])} on.delete)" if E_kind["delete"] else ""))
+            if got_c != E_kind["create"]:
+                extra = [n_ for n_ in got_c if n_ not in E_kind["create"]]
+                fail(k, f"state-changing handlers invoked for the new object: {['h%d' % x for x in got_c]}, expected the on.create handlers whose selector "
+                        f"holds now: {['h%d' % x for x in E_kind['create']]}", SIG_REDISC_EXTRA if extra else SIG_REDISC_MISSING, got_c)
+            if not changing_now:
+                rec.count("rediscover: stealth", "no state-changing handler selects the resource now" + (": written to" if len(sent) > n_sent else ": nothing sent"))
+                if len(sent) > n_sent:
+                    fail(k, f"no state-changing handler selects the resource as it is now, yet the new object is patched: {shown(sent[n_sent:])}", SIG_REDISC_TOUCHED, shown(sent[n_sent:]))
+            ask(k, r, rr, E)
+            changed = [a for a in ("categories", "shortcuts", "kind", "preferred") if any(
+                s_["r"][a] != r[a] for s_ in case["steps"][:k] if (s_["r"]["group"], s_["r"]["version"], s_["r"]["plural"]) == (r["group"], r["version"], r["plural"]))]
+            rec.count("rediscover: the endpoint at this step", "first discovery" if not any(
+                (s_["r"]["group"], s_["r"]["version"], s_["r"]["plural"]) == (r["group"], r["version"], r["plural"]) for s_ in case["steps"][:k])
+                else ("seen before, differs in " + "+".join(changed) if changed else "seen before, unchanged"))
+            flips = sum(1 for n_, (kd, decl, _) in enumerate(hs) if k and any(
+                doc_selector(decl, s_["r"]) != (n_ in E) for s_ in case["steps"][:k]
+                if (s_["r"]["group"], s_["r"]["version"], s_["r"]["plural"]) == (r["group"], r["version"], r["plural"])))
+            rec.count("rediscover: selectors whose outcome for this endpoint differs from an earlier step", min(flips, 3) if flips < 3 else "3+")
+            rec.nontrivial.add(f"redisc|{leanio.canon([hs[n_][1] for n_ in E])[:80]}|{r['categories']}{r['shortcuts']}{r['kind']}{r['preferred']}|{flips > 0}")
+    finally:
+        A.patch_and_check = orig
+    # the tie: the model's route of every selector over the history of questions put to it
+    asked = [s_["r"] for s_ in case["steps"] for _ in range(2 if s_.get("ask_first") else 1)]
+    for n_, (kind, decl, real) in enumerate(hs):
+        sel = real.selector
+        if len(rows[n_]) != len(asked):
+            continue                                   # (the run ended early: reported above)
+        an = sel.any_name
+        fields = {k_: getattr(sel, k_) for k_ in ("group", "version", "kind", "plural", "singular", "shortcut", "category")}
+        fields["any"] = None if an is None else ("*" if an is R.EVERYTHING else {"n": an})
+        if sel.fn is None:
+            reqs.append(["C15.route", [dict(fields, fn=None)], asked])
+            pending.append(("Selector.check over a re-discovery history", rows[n_], {"kind": "rediscover", "case": case, "handler": n_}))
+        else:
+            for j, r in enumerate(asked):
+                class _R:
+                    pass
+                ro = _R()
+                ro.__dict__.update(r)
+                reqs.append(["C15.selcheck", [dict(fields, fn=bool(sel.fn(ro)))], [r]])
+                pending.append(("Selector.check", rows[n_][j], {"kind": "rediscover", "case": case, "handler": n_, "question": j}))
 
 
 # =============================================================================================
@@ -3949,6 +4249,8 @@ def run_case(env: Env, rec: Rec, data: dict, reqs: list, pending: list, drv: lea
         asyncio.run(run_cycle_case(env, rec, c, reqs, pending))
     elif kind == "served":
         run_served_case(env, rec, data["case"])
+    elif kind == "rediscover":
+        asyncio.run(run_rediscover_case(env, rec, data["case"], reqs, pending))
     elif kind == "shards":
         run_shards_case(env, rec, data["case"], REPO[0])
     elif kind == "stacked":
@@ -4035,6 +4337,15 @@ def run(ctx: Ctx) -> None:
     flush(rec, drv, reqs, pending)
     lap("registries/dedup/selectors")
 
+    async def rediscoveries() -> None:
+        for case in rediscover_scenarios():
+            await run_rediscover_case(env, rec, case, reqs, pending)
+        for _ in range(ctx.budget(200, 6000)):
+            await run_rediscover_case(env, rec, random_rediscover_case(rng), reqs, pending)
+    asyncio.run(rediscoveries())
+    flush(rec, drv, reqs, pending)
+    lap("re-discovery histories")
+
     async def subregistries() -> None:
         for case in sub_sweep():
             await run_subselect_case(env, rec, case, reqs, pending)
@@ -4051,7 +4362,7 @@ def run(ctx: Ctx) -> None:
             await run_cycle_case(env, rec, random_leftover_sequence(rng), reqs, pending)
         for _ in range(ctx.budget(300, 4000)):
             await run_cycle_case(env, rec, random_subcycle_case(rng), reqs, pending)
-        for _ in range(ctx.budget(1500, 20000)):
+        for _ in range(ctx.budget(1300, 20000)):       # (1500 before the re-discovery histories came: the quick tier's wall is kept)
             await run_cycle_case(env, rec, random_cycle_case(rng), reqs, pending)
         # consecutive events on the same in-memory records with kopf's REAL daemon spawning/stopping
         for _ in range(ctx.budget(40, 600)):
@@ -4086,7 +4397,7 @@ def search(ctx: Ctx, broken: list) -> None:
     rec = Rec()
     for b in broken:
         inp = (b.replay or {}).get("input") if isinstance(b.replay, dict) else None
-        if isinstance(inp, dict) and inp.get("kind") in ("pair", "select", "dedup", "cycle", "subselect", "stacked", "shards", "served"):
+        if isinstance(inp, dict) and inp.get("kind") in ("pair", "select", "dedup", "cycle", "subselect", "stacked", "shards", "served", "rediscover"):
             try:
                 run_case(env, rec, inp, [], [], None, use_model=False)
             except Exception:
@@ -4113,6 +4424,10 @@ def search(ctx: Ctx, broken: list) -> None:
             run_dedup_case(env, rec, [[rng.randrange(3), rng.choice("abc")] for _ in range(rng.randint(0, 8))], reqs, pending)
 
         async def cycles() -> None:
+            for case in rediscover_scenarios():
+                await run_rediscover_case(env, rec, case, reqs, pending)
+            for _ in range(3000):
+                await run_rediscover_case(env, rec, random_rediscover_case(rng), reqs, pending)
             for case in sub_sweep():
                 await run_subselect_case(env, rec, case, reqs, pending)
             for _ in range(8000):
